@@ -251,7 +251,10 @@ def de43_text(draw, codec, maxlen):
         name = draw(st.text(alphabet='ABC xyz', min_size=1, max_size=12)).strip() or 'A'
         addr = draw(st.text(alphabet='12 MAIN st', min_size=1, max_size=10)).strip() or 'B'
         sub = draw(st.text(alphabet='SUBURBIA ', min_size=1, max_size=8)).strip() or 'C'
-        post = draw(st.text(alphabet='0123456789', min_size=0, max_size=10)).ljust(10)
+        # ten characters, blanks allowed anywhere (leading, inner, trailing): the layout only fixes the width
+        post = draw(st.one_of(st.text(alphabet='0123456789', min_size=0, max_size=10).map(lambda t: t.ljust(10)),
+                              st.text(alphabet='0123456789', min_size=1, max_size=9).map(lambda t: t.rjust(10)),
+                              st.text(alphabet='012 AB', min_size=10, max_size=10)))
         text = f'{name}  \\{addr} \\{sub}\\{post}QLDAUS'
         if len(text) <= maxlen:
             return text
